@@ -96,7 +96,8 @@ def concretise(scs) -> str:
             out.append(f"def a{i}() -> {py(sc['ret'])}:\n{docstring(sc)}\n    ...\n\n")
         else:
             doc = (docstring(sc) + "\n") if sc["ndoc"] else ""
-            out.append(f"def g{i}(c=0, d=0):\n" + doc + "\n".join(body_src(sc["body"])) + "\n\n")
+            sig = "c: int = 0, d: int = 0" if sc["mode"] == "infp" else "c=0, d=0"
+            out.append(f"def g{i}({sig}):\n" + doc + "\n".join(body_src(sc["body"])) + "\n\n")
     return "\n".join(out)
 
 
